@@ -418,7 +418,24 @@ class ArrayType(TypeBase):
                     "unexpected number of parts in dimension spec '%s'"
                     % dim)
 
-    INDEX_VAR_COUNTER = 0
+    @staticmethod
+    def _count_nested_index_vars(fortran_type):
+        """Return the number of index variables used by array types nested
+        inside *fortran_type*."""
+        if isinstance(fortran_type, ArrayType):
+            return (len(fortran_type.index_vars)
+                    + ArrayType._count_nested_index_vars(
+                        fortran_type.element_type))
+        elif isinstance(fortran_type, PointerType):
+            return ArrayType._count_nested_index_vars(
+                    fortran_type.pointee_type)
+        elif isinstance(fortran_type, StructureType):
+            return max(
+                    [ArrayType._count_nested_index_vars(member_type)
+                        for name, member_type in fortran_type.members]
+                    or [0])
+        else:
+            return 0
 
     def __init__(self, dimension, element_type, index_vars=None):
         self.element_type = element_type
@@ -429,11 +446,13 @@ class ArrayType(TypeBase):
         if isinstance(index_vars, str):
             index_vars = tuple(iv.strip() for iv in index_vars.split(","))
         elif index_vars is None:
-            def get_index_var():
-                ArrayType.INDEX_VAR_COUNTER += 1
-                return "i%d" % ArrayType.INDEX_VAR_COUNTER
-
-            index_vars = tuple(get_index_var() for d in dimension)
+            # Default index variables are numbered by nesting depth. This
+            # keeps them distinct within a nest of array types and makes
+            # the generated code independent of how many array types were
+            # created earlier in the process.
+            base = self._count_nested_index_vars(element_type)
+            index_vars = tuple(
+                    "i%d" % (base + i + 1) for i in range(len(dimension)))
 
         if len(index_vars) != len(dimension):
             raise ValueError("length of 'index_vars' does not match length "
